@@ -791,6 +791,11 @@ class Repository:
                 contents = self._get_cached(path)
             except FileNotFoundError:
                 pass
+            else:
+                # An interrupted run may have left an incomplete file behind
+                if self.props.hash_digest(contents) != expected_digest:
+                    logger.info('Cached copy of %s is invalid, ignoring it', path)
+                    contents = None
 
         if contents is None:
             contents = self._download_threadsafe(path, loop=loop)
